@@ -198,7 +198,8 @@ Lemma process_tail cx s3 ip r al aall payload off s' rep tags t0 :
   | Some a => s_local_seq_no s' = a /\
               s_remote_last_seq s' = (if seq_lt (s_remote_last_seq s3) a then a else s_remote_last_seq s3)
   end /\
-  (payload = [] -> rep = None /\ s_rx_buffer s' = s_rx_buffer s3 /\ s_remote_last_ack s' = s_remote_last_ack s3) /\
+  (payload = [] -> rep = None /\ s_rx_buffer s' = s_rx_buffer s3 /\ s_remote_last_ack s' = s_remote_last_ack s3 /\
+                   s_ack_delay_timer s' = s_ack_delay_timer s3) /\
   match rep with Some p => reply_to ip r p /\ ack_shape s' p | None => True end.
 Proof.
   intros Hal H.
@@ -206,7 +207,10 @@ Proof.
   pose proof (update_remote_stf _ _ _ _ _ _ H4) as S4.
   pose proof (update_remote_cpf _ _ _ _ _ _ Hal H4) as C4.
   pose proof (update_remote_frame _ _ _ _ _ _ H4) as F4.
+  pose proof (update_remote_auxf _ _ _ _ _ _ H4) as (_ & X4).
   apply obind_ok_inv in H. destruct H as ((s5 & t5) & H5 & H).
+  pose proof (dup_ack_auxf _ _ _ _ _ _ _ H5) as (_ & X5).
+  pose proof (tsval_auxf s5 r) as (_ & X5').
   pose proof (dup_ack_stf _ _ _ _ _ _ _ H5) as S5.
   pose proof (dup_ack_fields _ _ _ _ _ _ _ H5) as (D1 & D2 & D3).
   pose proof (dup_ack_frame _ _ _ _ _ _ _ H5) as F5.
@@ -217,9 +221,11 @@ Proof.
              end) in *. clearbody q5. cbv zeta in H.
   pose proof (timers_stf cx q5 al aall) as S6. pose proof (timers_cpf cx q5 al aall) as C6.
   pose proof (timers_frame cx q5 al aall) as F6.
-  destruct (tcp_process_timers cx q5 al aall) as (s6, t6). cbn [fst] in S6, C6, F6.
+  pose proof (timers_auxf cx q5 al aall) as (_ & X6).
+  destruct (tcp_process_timers cx q5 al aall) as (s6, t6). cbn [fst] in S6, C6, F6, X6.
   pose proof (zwp_stf cx s6 al) as S7. pose proof (zwp_cpf cx s6 al) as C7. pose proof (zwp_frame cx s6 al) as F7.
-  destruct (tcp_process_zwp cx s6 al) as (s7, t7). cbn [fst] in S7, C7, F7.
+  pose proof (zwp_auxf cx s6 al) as (_ & X7).
+  destruct (tcp_process_zwp cx s6 al) as (s7, t7). cbn [fst] in S7, C7, F7, X7.
   apply obind_ok_inv in H. destruct H as (((s8 & rep8) & t8) & H8 & H).
   pose proof (payload_stf _ _ _ _ _ _ _ _ _ H8) as S8. pose proof (payload_cpf _ _ _ _ _ _ _ _ _ H8) as C8.
   pose proof (payload_ack _ _ _ _ _ _ _ _ _ H8) as R8.
@@ -239,8 +245,8 @@ Proof.
   split.
   { intros ->. rewrite payload_nil in H8. inversion H8; subst s8 rep8 t8.
     split; [reflexivity|].
-    pose proof (frame_trans _ _ _ F7 (frame_trans _ _ _ F6 (frame_trans _ _ _ F5' (frame_trans _ _ _ F5 F4)))) as ((_ & X2 & _ & _ & X5 & _) & _).
-    split; assumption. }
+    pose proof (frame_trans _ _ _ F7 (frame_trans _ _ _ F6 (frame_trans _ _ _ F5' (frame_trans _ _ _ F5 F4)))) as ((_ & Y2 & _ & _ & Y5 & _) & _).
+    split; [exact Y2|]. split; [exact Y5|]. congruence. }
   exact R8.
 Qed.
 
@@ -250,7 +256,8 @@ Qed.
 Lemma apply_mss_fields s r :
   s_tx_buffer (tcp_apply_mss s r) = s_tx_buffer s /\ s_rx_buffer (tcp_apply_mss s r) = s_rx_buffer s /\
   rt_max_seq_sent (s_rtte (tcp_apply_mss s r)) = rt_max_seq_sent (s_rtte s) /\
-  s_local_seq_no (tcp_apply_mss s r) = s_local_seq_no s /\ s_tuple (tcp_apply_mss s r) = s_tuple s.
+  s_local_seq_no (tcp_apply_mss s r) = s_local_seq_no s /\ s_tuple (tcp_apply_mss s r) = s_tuple s /\
+  s_ack_delay_timer (tcp_apply_mss s r) = s_ack_delay_timer s.
 Proof.
   unfold tcp_apply_mss. destruct (r_max_seg_size r) as [m|]; [destruct (m =? 0)|]; rproj; repeat split; reflexivity.
 Qed.
@@ -275,8 +282,8 @@ Proof.
   { unfold tcp_process_quash, quash_psh. rewrite Hc. reflexivity. }
   rewrite Hq in H.
   unfold tcp_process_transition in H. rewrite Hst in H. cbn [obind] in H.
-  destruct (apply_mss_fields s r) as (M1 & M2 & M3 & M4 & M5).
-  revert H M1 M2 M3 M4 M5. generalize (tcp_apply_mss s r). intros q H M1 M2 M3 M4 M5.
+  destruct (apply_mss_fields s r) as (M1 & M2 & M3 & M4 & M5 & M6).
+  revert H M1 M2 M3 M4 M5 M6. generalize (tcp_apply_mss s r). intros q H M1 M2 M3 M4 M5 M6.
   match type of H with context [tcp_process_update_remote cx ?t r 0] => set (s3 := t) in * end.
   assert (P3 : s_state s3 = SynReceived /\
                s_tuple s3 = Some (mkTuple (ip_dst ip) (r_dst_port r) (ip_src ip) (r_src_port r)) /\
@@ -290,7 +297,7 @@ Proof.
   clearbody s3.
   destruct (process_tail cx s3 ip r 0 false [] 0 s' rep tags [104; 128; 143] ltac:(lia) H)
     as ((T1 & T2 & _ & T4) & T5 & T6 & T7 & T8 & _).
-  rewrite Ha in T7. destruct T7 as (T7a & T7b). destruct (T8 eq_refl) as (T8a & T8b & T8c).
+  rewrite Ha in T7. destruct T7 as (T7a & T7b). destruct (T8 eq_refl) as (T8a & T8b & T8c & _).
   destruct P3 as (Q1 & Q2 & Q3 & Q4 & Q5 & Q6 & Q7 & Q8 & Q9).
   repeat split; congruence.
 Qed.
@@ -328,7 +335,9 @@ Theorem process_synrecv_ack cx s ip r s' rep tags :
   s_tuple s' = s_tuple s /\ s_tx_buffer s' = s_tx_buffer s /\
   (s_remote_last_ack s <> None -> s_remote_last_ack s' <> None) /\
   rt_max_seq_sent (s_rtte s') = rt_max_seq_sent (s_rtte s) /\
-  ((s_state s' = SynReceived /\ s_local_seq_no s' = s_local_seq_no s) \/
+  ((s_state s' = SynReceived /\ s_local_seq_no s' = s_local_seq_no s /\
+    fst (tcp_segment_in_window (tcp_window_start s) (tcp_window_end s) (r_seq_number r)
+                               (seq_add (r_seq_number r) (l_len (r_payload r)))) = false) \/
    (s_state s' = Established /\ s_local_seq_no s' = seq_add (s_local_seq_no s) 1)) /\
   reply_ack ip r s' rep.
 Proof.
@@ -341,8 +350,12 @@ Proof.
   pose proof (window_stf _ _ _ _ _ H2) as S2. pose proof (window_cpf _ _ _ _ _ H2) as C2.
   destruct p2 as [t2 ((s2, payload), off)|t2 s2r rep2].
   2:{ inversion H; subst s2r rep2 tags. destruct S2 as (A1 & A2 & A3 & A4). destruct C2 as (B1 & B2 & _).
-      repeat (split; [assumption|]). split; [left; split; congruence|].
-      exact (window_ret_ack _ _ _ _ _ _ _ H2). }
+      repeat (split; [assumption|]). split; [|exact (window_ret_ack _ _ _ _ _ _ _ H2)].
+      left. split; [congruence|]. split; [congruence|].
+      unfold tcp_process_window in H2. rewrite Hst in H2.
+      destruct (tcp_segment_in_window _ _ _ _) as (inw, tg). destruct inw; [|reflexivity].
+      destruct (negb (seq_le _ _)); [discriminate|].
+      repeat (apply obind_ok_inv in H2; destruct H2 as (? & _ & H2)). discriminate. }
   destruct S2 as (A1 & A2 & A3 & A4). destruct C2 as (B1 & B2 & B3 & B4).
   assert (Hnr : r_control r <> CRst) by (destruct Hc as [-> | ->]; discriminate).
   destruct (ack_len_of_syn s2 r) as (aall & Hal).
@@ -370,7 +383,8 @@ Theorem process_synsent_synack cx s ip r s' rep tags :
   s_local_seq_no s' = seq_add (s_local_seq_no s) 1 /\
   s_remote_seq_no s' = seq_add (r_seq_number r) 1 /\ s_rx_buffer s' = s_rx_buffer s /\
   s_remote_last_ack s' = Some (r_seq_number r) /\ rep = None /\
-  rt_max_seq_sent (s_rtte s') = rt_max_seq_sent (s_rtte s).
+  rt_max_seq_sent (s_rtte s') = rt_max_seq_sent (s_rtte s) /\
+  s_remote_last_seq s' = seq_add (s_local_seq_no s) 1 /\ s_ack_delay_timer s' = s_ack_delay_timer s.
 Proof.
   intros Hst Hc Ha H. unfold tcp_process in H.
   destruct (negb (tcp_accepts s ip r)); [discriminate|].
@@ -387,22 +401,26 @@ Proof.
   assert (Hq : tcp_process_quash s r = CSyn).
   { unfold tcp_process_quash, quash_psh. rewrite Hc. reflexivity. }
   rewrite Hq in H. unfold tcp_process_transition in H. rewrite Hst, Ha in H. cbn [is_some obind] in H.
-  destruct (apply_mss_fields s r) as (M1 & M2 & M3 & M4 & M5).
-  revert H M1 M2 M3 M4 M5. generalize (tcp_apply_mss s r). intros q H M1 M2 M3 M4 M5.
+  destruct (apply_mss_fields s r) as (M1 & M2 & M3 & M4 & M5 & M6).
+  revert H M1 M2 M3 M4 M5 M6. generalize (tcp_apply_mss s r). intros q H M1 M2 M3 M4 M5 M6.
   match type of H with context [tcp_process_update_remote cx ?t r 0] => set (s3 := t) in * end.
   assert (P3 : s_state s3 = Established /\ s_tuple s3 = s_tuple s /\ s_tx_buffer s3 = s_tx_buffer s /\
                s_remote_seq_no s3 = seq_add (r_seq_number r) 1 /\ s_rx_buffer s3 = s_rx_buffer s /\
                s_remote_last_ack s3 = Some (r_seq_number r) /\
-               rt_max_seq_sent (s_rtte s3) = rt_max_seq_sent (s_rtte s)).
+               rt_max_seq_sent (s_rtte s3) = rt_max_seq_sent (s_rtte s) /\
+               s_remote_last_seq s3 = seq_add (s_local_seq_no s) 1 /\ s_ack_delay_timer s3 = s_ack_delay_timer s).
   { unfold s3, tcp_set_state. rproj.
     destruct (is_some (r_window_scale r)); destruct (is_some (r_timestamp r)); rproj;
-      rewrite ?M1, ?M2, ?M3, ?M5; repeat split; reflexivity. }
+      rewrite ?M1, ?M2, ?M3, ?M4, ?M5, ?M6; repeat split; reflexivity. }
   clearbody s3.
   destruct (process_tail cx s3 ip r 0 aall [] 0 s' rep tags [106; 128; 146] ltac:(lia) H)
     as ((T1 & T2 & _ & T4) & T5 & T6 & T7 & T8 & _).
-  rewrite Ha in T7. destruct T7 as (T7 & _). destruct (T8 eq_refl) as (T8a & T8b & T8c).
-  destruct P3 as (Q1 & Q2 & Q3 & Q4 & Q5 & Q6 & Q7).
-  repeat split; congruence.
+  rewrite Ha in T7. destruct T7 as (T7 & T7b). destruct (T8 eq_refl) as (T8a & T8b & T8c & T8d).
+  destruct P3 as (Q1 & Q2 & Q3 & Q4 & Q5 & Q6 & Q7 & Q8 & Q9).
+  split; [congruence|]. split; [congruence|]. split; [congruence|]. split; [exact T7|].
+  split; [congruence|]. split; [congruence|]. split; [congruence|]. split; [exact T8a|]. split; [congruence|].
+  split; [|congruence].
+  rewrite T7b, Q8. unfold seq_lt. rewrite seq_sdiff_refl. reflexivity.
 Qed.
 
 (* ---------------------------------------------------------------------------------------- *)
@@ -497,7 +515,10 @@ Proof.
   2:{ inversion H; subst. exact W2. }
   apply obind_ok_inv in H. destruct H as ((s4 & wu) & H4 & H).
   pose proof (update_remote_frame _ _ _ _ _ _ H4) as F4.
+  pose proof (update_remote_auxf _ _ _ _ _ _ H4) as (_ & X4).
   apply obind_ok_inv in H. destruct H as ((s5 & t5) & H5 & H).
+  pose proof (dup_ack_auxf _ _ _ _ _ _ _ H5) as (_ & X5).
+  pose proof (tsval_auxf s5 r) as (_ & X5').
   pose proof (dup_ack_frame _ _ _ _ _ _ _ H5) as F5.
   pose proof (tsval_frame s5 r) as F5'.
   set (q5 := match r_timestamp r with
